@@ -78,7 +78,7 @@ func runC14(r *vfw.Run) {
 	accepted := map[common.Hash]*types.Transaction{}
 	included := map[common.Hash]bool{}
 	invalidated := map[common.Hash]bool{} // accepted transactions that were invalid against the committed state after some block
-	var shared []*types.Transaction // transactions other clients may re-submit
+	var shared []*types.Transaction       // transactions other clients may re-submit
 	syncing := false
 	clientsDone := 0
 	nclients := 2 + t.Choose("c14.nclients", 3)
